@@ -35,13 +35,13 @@ DOT_ACCEPT = {"Identifier", "QuotedIdentifier", "Star", "Lbrace", "Lbracket", "A
 
 def run(ctx):
     lib = ctx.lib()
-    check_separators(ctx, lib)
-    check_nonempty(ctx, lib)
-    check_closers(ctx, lib)
-    check_complete_input(ctx, lib)
-    check_dispatch(ctx, lib)
-    check_parse_index(ctx, lib)
-    check_lexer(ctx, lib)
+    ctx.attempt("check_separators", check_separators, ctx, lib)
+    ctx.attempt("check_nonempty", check_nonempty, ctx, lib)
+    ctx.attempt("check_closers", check_closers, ctx, lib)
+    ctx.attempt("check_complete_input", check_complete_input, ctx, lib)
+    ctx.attempt("check_dispatch", check_dispatch, ctx, lib)
+    ctx.attempt("check_parse_index", check_parse_index, ctx, lib)
+    ctx.attempt("check_lexer", check_lexer, ctx, lib)
 
 
 # =============================================================================================
@@ -635,7 +635,7 @@ def check_lexer(ctx, lib):
             else:
                 extra = ""
                 if name == "consume_number":
-                    neg = o.of_operand(t["args"][3])
+                    neg = o.of_operand(t["args"][-1])
                     extra = ":neg" if neg == {("const", 1)} else ":pos"
                 add(("scan", name + extra), cs)
         elif c.endswith("::push_back"):
@@ -726,7 +726,7 @@ def check_lexer(ctx, lib):
                 leaks = [x for x in r if b.blocks[x]["term"]["k"] == "return" or (b.blocks[x]["term"]["k"] == "call" and b.blocks[x]["term"]["callee"].endswith("::push_back"))]
                 ok = ok and not leaks
     ctx.check(ok, rule, "equals-needs-equals", f"'=' yields Eq only when the next character is '='; a lone '=' is a parse error ({detail})", b.span)
-    check_scanners(ctx, lib)
+    ctx.attempt("check_scanners", check_scanners, ctx, lib)
 
 
 def closure_true_set(lib, cb):
@@ -821,7 +821,7 @@ def check_scanners(ctx, lib):
         o = Origins(nn, lib)
         br = Branches(nn, o)
         calls = [(bb, t) for bb, t in nn.calls() if t["callee"] == L + "consume_number"]
-        ok = len(calls) == 1 and o.of_operand(calls[0][1]["args"][3]) == {("const", 1)}
+        ok = len(calls) == 1 and o.of_operand(calls[0][1]["args"][-1]) == {("const", 1)}
         if ok:
             site = calls[0][0]
             num = nz = False
